@@ -824,6 +824,14 @@ class Terms:
                 return args[0]
         if f.get("method") in GENERIC_DISPATCH and f.get("targs"):
             key = "%s{%s}" % (key, ",".join(f["targs"]))
+        if key == "std::boxed::box_assume_init_into_vec_unsafe":
+            # `vec![a, b, ..]`: the elements are stored as one array aggregate through the raw pointer
+            # of the uninitialised box in the same block, just before this call
+            stmts = self.body.blocks[bb]["stmts"]
+            for pos in range(len(stmts) - 1, -1, -1):
+                s = stmts[pos]
+                if s["k"] == "assign" and s["place"]["p"] and s["place"]["p"][0]["k"] == "deref" and s["rv"]["k"] == "agg" and s["rv"].get("agg") == "array":
+                    return ("call", "vec!", (self.rvalue(s["rv"], bb, pos),), bb)
         if key == "<indirect>" or key == "<fnptr>" or key is None:
             fo = f.get("op")
             ft = self.operand(fo, bb, n) if fo else ("unknown", "fn")
